@@ -398,8 +398,13 @@ func c11Check(views map[types.UID]*c11View, tasks map[string]*c11TaskView, thr *
 				ext, ovf := false, false
 				for i := range ka {
 					ext = ext || c11IsExtreme(ka[i]) || c11IsExtreme(kb[i])
-					if d := ka[i] - kb[i]; d > c11MaxI32 || d < c11MinI32 {
-						ovf = true
+				}
+				for i := range ka {
+					if ka[i] != kb[i] {
+						// the deciding key: would an int32 subtraction of the two values overflow?
+						d := ka[i] - kb[i]
+						ovf = d > c11MaxI32 || d < c11MinI32
+						break
 					}
 				}
 				if ext {
